@@ -370,9 +370,13 @@ def parse_units(ctx, src):
     emit(u, 'int JSON_parse_dispatch(StringReader* r)', d, 'JSON::parse dispatch chain', CC, rules=rr + CTYPE + [Lower(READER_MAYTHROW, '-1')],
          ret_zero='-1', desc=PARSE + ' :: conditions of the dispatch chain on root_type_ch, in order')
     # number branch
+    ovf = re.findall(r'\bbool (\w*overflow\w*) = false;', lex.mask(arms[2][1]))
+    if len(ovf) > 1:
+        raise ExtractionBreak('JSON::parse: more than one overflow flag in the number block: %r' % ovf)
+    u.raw('#define C04_DEC_OVF_INV %s' % ('__CPROVER_loop_invariant(!%s)' % ovf[0] if ovf else ''))
     emit(u, 'void JSON_parse_number(StringReader* r, bool disable_extensions, char root_type_ch, JSONV* ret)', arms[2][1],
          'JSON::parse number branch', CC, rules=rr + CTYPE + SET_RULES[:2] + [Lower(READER_MAYTHROW)], ret_zero='',
-         loops={1: 'C04_HEX_LOOP', 2: 'C04_DEC_LOOP', 5: E_LOOP, 6: E_LOOP}, nloops=6, desc=PARSE + ' :: number branch')
+         loops={1: 'C04_HEX_LOOP(@LOCALS@)', 2: 'C04_DEC_LOOP(@LOCALS@)', 5: E_LOOP, 6: E_LOOP}, nloops=6, desc=PARSE + ' :: number branch')
     # string branch (whole) and the body of its loop
     srules = rr + STR_RULES + SET_RULES[2:3] + [Lower(READER_MAYTHROW)]
     emit(u, 'void JSON_parse_string(StringReader* r, JSONV* ret, vstr* data)', arms[3][1], 'JSON::parse string branch', CC,
